@@ -952,13 +952,18 @@ impl AstNode for UtxoRef {
     fn parse(pair: Pair<Rule>) -> Result<Self, Error> {
         let span = pair.as_span().into();
         let raw_ref = pair.as_span().as_str()[2..].to_string();
-        let (raw_txid, raw_output_ix) = raw_ref.split_once("#").expect("Invalid utxo ref");
+        let (raw_txid, raw_output_ix) = raw_ref
+            .split_once("#")
+            .ok_or_else(|| Error::at(&pair, "invalid utxo ref"))?;
 
-        Ok(UtxoRef {
-            txid: hex::decode(raw_txid).expect("Invalid hex txid"),
-            index: raw_output_ix.parse().expect("Invalid output index"),
-            span,
-        })
+        let txid = hex::decode(raw_txid)
+            .map_err(|_| Error::at(&pair, "invalid hex in the txid of a utxo ref"))?;
+
+        let index = raw_output_ix
+            .parse()
+            .map_err(|_| Error::at(&pair, "output index of a utxo ref out of range"))?;
+
+        Ok(UtxoRef { txid, index, span })
     }
 
     fn span(&self) -> &Span {
